@@ -58,7 +58,33 @@ def strategy(tier):
         "terms": st.lists(term, min_size=1, max_size=8),
     })
     return st.fixed_dictionaries({
-        "groups": st.lists(group, min_size=1, max_size=4)})
+        "groups": st.lists(group, min_size=1, max_size=4),
+        # stretch one input region so that the first group's frame lands on
+        # this size (around the 1500 byte limit)
+        "fit": st.none() | st.none() | st.sampled_from(
+            [1497, 1498, 1499, 1500, 1501, 1502, 1503, 1504]),
+    }).map(fit_first_group)
+
+
+class _Decl:
+    def __init__(self, spec):
+        self.in_size, self.out_size = spec["decl"]
+
+
+def fit_first_group(case):
+    target = case.get("fit")
+    if target is None:
+        return case
+    specs = case["groups"][0]["terms"]
+    need = minimal_size([(_Decl(s), s) for s in specs])
+    if need >= 10**6:
+        return case
+    for s in specs:
+        if s["mode"] in ("fmmu", "direct") and s["in"] \
+                and s["in"] + target - need >= 1:
+            s["in"] += target - need
+            break
+    return case
 
 
 class Holder(Device):
